@@ -75,6 +75,9 @@ func classifyRun(err error) string {
 type engineX struct {
 	afterDecode func()
 	phout       string
+	// lateFailed (set by afterDecode): the listener that was to come up after the config was decoded could not bind its
+	// reserved address (another process of the shared machine took the port in between): nothing was observed
+	lateFailed *bool
 }
 
 func runEngine(yamlConf string, timeout time.Duration, debug bool) shot.Result {
@@ -99,6 +102,9 @@ func runEngineX(yamlConf string, timeout time.Duration, debug bool, x engineX) s
 	}
 	if x.afterDecode != nil {
 		x.afterDecode()
+		if x.lateFailed != nil && *x.lateFailed {
+			return shot.Result{Class: "address_already_in_use (the late listener could not bind its reserved address)"}
+		}
 	}
 	log := zap.NewNop()
 	if debug {
